@@ -371,6 +371,19 @@ func (e *kvElection) becomeLeader(token string, rev uint64) {
 		}
 	}
 
+	// The election may have been stopped while the acquiring store call was in
+	// flight. A stopped election never becomes leader (nobody would heartbeat
+	// the record); the record is left to expire.
+	if fromState == StateStopped {
+		log := e.getLogger()
+		log.Warn("acquire_completed_after_stop_ignored",
+			append(e.logWithContext(e.ctx),
+				zap.Uint64("revision", rev),
+			)...,
+		)
+		return
+	}
+
 	e.isLeader.Store(true)
 	e.leaderID.Store(e.cfg.InstanceID)
 	e.token.Store(token)
@@ -505,6 +518,13 @@ func (e *kvElection) becomeFollowerLocked() {
 		if str, ok := s.(string); ok {
 			fromState = str
 		}
+	}
+
+	// Stop has already cleared the leadership flag and recorded STOPPED; a
+	// background goroutine that finishes afterwards must not move the stopped
+	// election to FOLLOWER or start a new watcher.
+	if fromState == StateStopped {
+		return
 	}
 
 	wasLeader := e.isLeader.Load()
